@@ -338,6 +338,9 @@ def oracle(ctx, orc, focus=None):
         st = sxs.setdefault(cpu, {"steps": 0, "executed": 0, "illegal": 0})
         st["steps"] += 1
         p = gen_simx.parse_answer(a)
+        if p is None and a.startswith("exit=") and ",bio=" in l and a == b:
+            st["break"] = st.get("break", 0) + 1          # the case armed break_io on the written address: exit() is the break outcome
+            continue
         if p is None:
             orc["failures"].append({"sig": "C15:simx:%s:crash:%s" % (cpu, _norm_crash(a)), "input": l[:1500],
                                     "expected": "executed / illegal / break", "observed": a[:300],
